@@ -250,6 +250,7 @@ def _ret_fails(e, clause):
 
 def run(ctx, replay=None):
     lib()
+    ctx.notes["reflectors_certified_by_TLC"] = E.check_against_tlc(ctx)
     thorough = ctx.tier == "thorough"
     K = 24 if thorough else 10
     ctx.assumptions += [
